@@ -232,6 +232,24 @@ class CandInterp(Interp):
                 if not isinstance(t, tuple):
                     r.problems.append((node, "starmap element is not a tuple"))
                     continue
+                out.append(self._score_of(callee, names, t, node))
+            return out
+        if name == "sorted":
+            return self._sorted(args, kwargs, node)
+        return super().external_call(name, args, kwargs, node)
+
+    def call_func(self, f, args, kwargs, node, self_obj=None):
+        # the metric applied directly to one candidate's (arrays, labels): same as one starmap element
+        if f.name == "__call__" and f.cls is not None and f.cls.name in ("_Metric", "Metric") and self_obj is not None and not kwargs and len(args) == 4:
+            callee = f
+            names = [p.name for p in callee.call_params if p.kind == "pos"]
+            return self._score_of(callee, names, tuple(args), node)
+        return super().call_func(f, args, kwargs, node, self_obj=self_obj)
+
+    def _score_of(self, callee, names, t, node):
+        r = self.root
+        if True:
+            if True:
                 bound = dict(zip(names, t))
                 refi = predi = None
                 for pn, v in bound.items():
@@ -253,9 +271,10 @@ class CandInterp(Interp):
                             predi = v.name
                 if refi is None or predi is None or refi[3:] != predi[4:]:
                     r.problems.append((node, f"starmap tuple {t!r} does not bind one candidate's (ref, pred) labels"))
-                out.append(_Score(f"score[{refi},{predi}]"))
-            return out
-        if name == "sorted":
+                return _Score(f"score[{refi},{predi}]")
+
+    def _sorted(self, args, kwargs, node):
+        if True:
             items = args[0]
             key = kwargs.get("key")
             rev = kwargs.get("reverse", False)
@@ -268,7 +287,6 @@ class CandInterp(Interp):
             if isinstance(rev, Unknown):
                 rev = None
             return _Sorted(items, key_ok, rev)
-        return super().external_call(name, args, kwargs, node)
 
     def attr_hook(self, base, attr, node):
         if isinstance(base, list) and attr == "sort":
